@@ -175,3 +175,26 @@ def parser_contract():
                              ret=(lambda S, r: r is S.tree) if exc is None else None,
                              exc={} if exc is None else {cp.CELParseError: on_error}, cover=False, native=False))
     return cs
+
+
+SCALARS = KINDS[:7]        # bool, int64, uint64, double, string, bytes, null
+
+
+def operator_envelope_contracts():
+    """layer 2, deductive part: the REAL implementation of every operator, executed symbolically on every pair of scalar
+    kinds, raises nothing outside its declared envelope (what the rule methods of layer 1 are proved to convert)"""
+    cs = []
+    for name, fn in ev.base_functions.items():
+        if name not in DECLARED or name in ("_||_", "_&&_", "_?_:_", "!_"):        # the logical functions have full contracts in C02
+            continue
+        arity = 1 if name == "-_" else 2
+        second = SCALARS
+        if name == "_in_":       # iterating a symbolic string / bytes container is outside the executor's subset: bounded grid only (props/c04.py)
+            second = [k for k in SCALARS if k.label not in ("StringType", "BytesType")]
+        args = [("a", SCALARS)] + ([("b", second)] if arity == 2 else [])
+        exc = {c: (lambda S: True) for c in DECLARED[name]}
+        cs.append(V.Contract(f"celpy.evaluation:base_functions", args, name=f"base_functions[{name!r}] envelope", cover=False,
+                             invoke=(lambda run, S, fn=fn, arity=arity: run.call(VNative(fn), [S.a] + ([S.b] if arity == 2 else []))),
+                             native=(lambda N, fn=fn, arity=arity: fn(N["a"], N["b"]) if arity == 2 else fn(N["a"])),
+                             ret=lambda S, r: True, exc=exc))
+    return cs
